@@ -12,12 +12,12 @@ EXPLANATION = (
     "to the EnvelopeCase variant it builds). C05.1: the tables are mutually inverse except the listed alias Tagged(24)->Leaf. "
     "C05.2: assertion writer inserts exactly untagged(predicate)->untagged(object); reader builds Assertion::new(decode(key), "
     "decode(value)). C05.3: node writer emits [untagged(subject)] ++ untagged(assertions) in stored order; reader decodes "
-    "element 0 as subject and the tail 1.. in order. C05.4: decoder accept values are constructor calls (digests recomputed). C05.5: the assertion-or-obscured predicate with which the decoder validates assertion slots has the expected table (Assertion / node over assertion; elided | encrypted | compressed subject), so everything the constructors can put into a slot is read back. "
+    "element 0 as subject and the tail 1.. in order. C05.4: decoder accept values are constructor calls (digests recomputed). C05.5: the assertion-or-obscured predicate with which the decoder validates assertion slots has the expected table (Assertion / node over assertion; elided | encrypted | compressed subject), so everything the constructors can put into a slot is read back. C05.6: the writer's image lies in the reader's domain: every node the constructors build is non-empty, element-valid and without equal assertion digests (the C04.1/C04.3/C04.4 instances re-evaluated), because the reader refuses anything else. "
     "Does not decide dCBOR's own canonical round-trip of leaf values, nor the UR text codec.")
 TRUSTED = ['dcbor: CBOR::to_tagged_value builds Tagged(tag, item); Map iterates in key order; CBOR::try_from_data accepts only dCBOR',
            'shape of dependency encoders is re-derived from the dcbor / bc-components MIR on every run']
 ALIASES = {('Tagged', 24): 'Leaf'}   # deprecated leaf tag #6.24 read as #6.201 (named in the property)
-FLOORS = {'C05.1': 8, 'C05.2': 2, 'C05.3': 2, 'C05.5': 2}
+FLOORS = {'C05.1': 8, 'C05.2': 2, 'C05.3': 2, 'C05.5': 2, 'C05.6': 10}
 
 
 def check(ctx):
@@ -158,3 +158,11 @@ def check(ctx):
     from . import C04
     from .C07 import Relabel
     C04.check_predicates(Relabel(ctx, 'C05.5', ['C04.4/pred']))
+    # C05.6: the writer's image lies inside the reader's domain. The reader refuses a node with fewer than two elements, with
+    # an element that is neither assertion nor obscured, or with assertion digests that are not strictly ascending; so every
+    # node the constructors can build must be non-empty (C04.1), element-valid (C04.4) and free of equal digests (C04.3)
+    # (sortedness is C01.2, evaluated for C01/C07). Re-evaluated here under this property's name.
+    try:
+        C04.check(Relabel(ctx, 'C05.6', ['C04.1', 'C04.3', 'C04.4']))
+    except Exception as e:
+        ctx.fail('C05.6', '-', 'writer-image obligations (C04.1/3/4) could not be evaluated: %r' % e, key='C05.6|c04')
